@@ -66,6 +66,13 @@ func keyFields(p *Prog, e *Eco) (map[string]bool, string) {
 					for _, k := range c.untiedKeys(w) {
 						untied[k] = true
 					}
+					// a term whose relation was never consulted on this path may differ as well
+					for k := range w.pos {
+						key := k[:strings.LastIndex(k, "|")]
+						if cv, ok := c.cmpAssigned(w, key, 0, 1); !ok || cv != 0 {
+							untied[key] = true
+						}
+					}
 				}
 			})
 		}()
